@@ -428,6 +428,8 @@ theorem mem_removeUserAllO (s : Reg) (r r' : RegId) (k' : Name) (u : Option User
 @[simp] theorem repaired_leakChecksFirst : repaired.leakChecksFirst = true := rfl
 @[simp] theorem repaired_sourceNodeMoves : repaired.sourceNodeMoves = true := rfl
 @[simp] theorem repaired_assignRegisters : repaired.assignRegisters = true := rfl
+@[simp] theorem repaired_renameMoves : repaired.renameMoves = true := rfl
+@[simp] theorem removeUsageQT_eq (s : Reg) (r : RegId) (k : Option Name) (u : User) : removeUsage?T s r k u = removeUsageO s r k u := rfl
 @[simp] theorem demandReg_repaired (obj : Bool) : demandReg repaired obj = .pattern := by cases obj <;> rfl
 
 /-! ### `set_curve_type` of the repaired code -/
